@@ -74,21 +74,14 @@ struct SstRest { _p: u8 }
 struct Sst { index_entries: Vec<SstIndexEntry>, rest: SstRest }
 
 //@ include flat.inc.rs
+//@ include sst_table.inc.rs
 
 impl Sst {
     uninterp spec fn blocks(&self) -> Seq<Seq<Ent>>;
     spec fn div(&self, i: int) -> Seq<u8> { self.index_entries@[i].key@ }
-    // what the builder establishes: one divider per block, non-empty blocks cut out of ONE sorted stream of entries, and
-    // keys of block i <= divider_i <= keys of block i+1 (NOT strict: the versions of one key may straddle two blocks, the
-    // divider then carries that key)
-    spec fn table_ok(&self) -> bool {
-        let bs = self.blocks();
-        &&& bs.len() == self.index_entries@.len() && bs.len() >= 1
-        &&& forall|i: int| 0 <= i < bs.len() ==> (#[trigger] bs[i]).len() >= 1 && sorted(bs[i])
-        &&& forall|i: int, j: int| 0 <= i < bs.len() && 0 <= j < bs[i].len() ==> lex_le(#[trigger] bs[i][j].key, self.div(i))
-        &&& forall|i: int, j: int| 0 <= i && i + 1 < bs.len() && 0 <= j < bs[i + 1].len() ==> lex_le(self.div(i), #[trigger] bs[i + 1][j].key)
-        &&& sorted(flat(bs, bs.len() as int))
-    }
+    spec fn divs(&self) -> Seq<Seq<u8>> { Seq::new(self.index_entries@.len(), |i: int| self.index_entries@[i].key@) }
+    // what the builder establishes (unit sst_builder proves it does): see table_pred
+    spec fn table_ok(&self) -> bool { table_pred(self.blocks(), self.divs()) }
 }
 
 // keys do not decrease from one block to a later one (through the dividers)
